@@ -132,6 +132,7 @@ func checkC06(p *Prog, r *Report) {
 	c06Totality(p, r, famList, fam)
 	c06LexerRewind(p, r)
 	c09IdentifierCompare(p, r, "C06.identifier-compare")
+	tokenBased(p, r, "C06.token-based")
 }
 
 func c06ErrAndSticky(p *Prog, r *Report, famList []*ssa.Function, fam map[*ssa.Function]bool) {
